@@ -35,120 +35,87 @@ func (p *Prog) caseClauseFor(root ast.Node, tag string, ch byte) *ast.CaseClause
 
 func ruleTextNames(c *Ctx) {
 	p := c.P
-	// parse: special names
+	// parse: special names, by constant propagation of every case variant and near miss through
+	// the prologue of parse (strings are constants of the abstract domain; parseNumber is opaque)
 	if fd := c.fn("parse"); fd != nil {
-		ps := paramObjs(p, fd)
-		found := map[string]string{}
-		ast.Inspect(fd.Body, func(n ast.Node) bool {
-			ifs, ok := n.(*ast.IfStmt)
-			if !ok || len(ifs.Body.List) != 1 {
-				return true
+		run := func(in string) []string {
+			it := newInterp(p)
+			decIntrinsics(it, false)
+			outs := it.runFunc(fd, nil, []AV{avStr{in}, avOpaque{"op"}})
+			var ks []string
+			for _, o := range outs {
+				ks = append(ks, o.avKey())
 			}
-			ret, ok := ifs.Body.List[0].(*ast.ReturnStmt)
-			if !ok || len(ret.Results) != 2 {
-				return true
+			if it.overflow {
+				ks = append(ks, "overflow")
 			}
-			call, ok := ret.Results[0].(*ast.CallExpr)
-			if !ok {
-				return true
-			}
-			what := ""
-			switch {
-			case p.isPkgFunc(call, "inf"):
-				what = "inf"
-			case p.isPkgFunc(call, "nan"):
-				what = "nan"
-			default:
-				return true
-			}
-			// cond: conjunction of (d[k]=='A' || d[k]=='a')
-			word := map[int64][2]int64{}
-			okShape := true
-			for _, cj := range conjuncts(ifs.Cond) {
-				be, ok := ast.Unparen(cj).(*ast.BinaryExpr)
-				if !ok || be.Op != token.LOR {
-					okShape = false
-					break
-				}
-				var idx int64 = -1
-				var letters []int64
-				for _, side := range []ast.Expr{be.X, be.Y} {
-					eq, ok := ast.Unparen(side).(*ast.BinaryExpr)
-					if !ok || eq.Op != token.EQL {
-						okShape = false
-						break
+			return ks
+		}
+		variants := func(w string) []string {
+			var out []string
+			for m := 0; m < 1<<uint(len(w)); m++ {
+				b := []byte(w)
+				for i := range b {
+					if m>>uint(i)&1 == 1 {
+						b[i] -= 32
 					}
-					ix, ok := ast.Unparen(eq.X).(*ast.IndexExpr)
-					if !ok || len(ps) == 0 || p.objOf(ix.X) != ps[0] {
-						okShape = false
-						break
+				}
+				out = append(out, string(b))
+			}
+			return out
+		}
+		for _, t := range []struct{ word, kind string }{{"inf", "inf"}, {"infinity", "inf"}, {"nan", "nan"}} {
+			bad := ""
+			n := 0
+			for _, v := range variants(t.word) {
+				for _, sg := range []string{"", "+", "-"} {
+					want := fmt.Sprintf("(Inf(%v), nil)", sg == "-")
+					if t.kind == "nan" {
+						want = "(NaN($op,i0,i0), nil)"
 					}
-					k, ok1 := p.constInt64(ix.Index)
-					v, ok2 := p.constInt64(eq.Y)
-					if !ok1 || !ok2 || (idx >= 0 && idx != k) {
-						okShape = false
-						break
+					got := run(sg + v)
+					n++
+					if len(got) != 1 || got[0] != want {
+						bad = fmt.Sprintf("parse(%q) gives %v, want %s", sg+v, got, want)
 					}
-					idx = k
-					letters = append(letters, v)
 				}
-				if !okShape || len(letters) != 2 {
-					okShape = false
-					break
-				}
-				word[idx] = [2]int64{letters[0], letters[1]}
 			}
-			if !okShape {
-				return true
+			c.check(bad == "", "names.parse:"+t.word, fd, fmt.Sprintf("all %d sign/case variants of %q give %s", n, t.word, t.kind), "parse: "+bad, "C05")
+		}
+		// near misses must not produce a special value
+		bad := ""
+		n := 0
+		for _, w := range []string{"inf", "infinity", "nan"} {
+			var miss []string
+			for i := range w {
+				for _, r := range []byte{w[i] + 1, w[i] - 1, '0', '_', w[i] ^ 0x40, 0x80 | w[i]} {
+					b := []byte(w)
+					b[i] = r
+					miss = append(miss, string(b))
+				}
 			}
-			// assemble
-			var sb strings.Builder
-			good := true
-			for i := int64(0); i < int64(len(word)); i++ {
-				l, ok := word[i]
-				if !ok {
-					good = false
-					break
+			miss = append(miss, w[:len(w)-1], w+w[len(w)-1:], w+"0", " "+w, w+" ", "i", "n", "in", "infi", "infin", "infinit", "nann", "inff", "infinityy")
+			for _, m := range miss {
+				if m == "inf" || m == "nan" || m == "infinity" {
+					continue
 				}
-				up, lo := l[0], l[1]
-				if up > lo {
-					up, lo = lo, up
-				}
-				if up < 'A' || up > 'Z' || lo != up+32 {
-					good = false
-				}
-				sb.WriteByte(byte(lo))
-			}
-			w := sb.String()
-			key := "names.parse:" + w
-			want := map[string]string{"inf": "inf", "infinity": "inf", "nan": "nan"}[w]
-			// the enclosing length test
-			lenOK := false
-			walkStack(fd.Body, func(m ast.Node, stack []ast.Node) {
-				if m != ast.Node(ifs) {
-					return
-				}
-				for i := len(stack) - 1; i >= 0; i-- {
-					if outer, ok := stack[i].(*ast.IfStmt); ok {
-						if be, ok := ast.Unparen(outer.Cond).(*ast.BinaryExpr); ok && be.Op == token.EQL {
-							if k, ok := p.constInt64(be.Y); ok && int(k) == len(w) {
-								lenOK = true
-							}
+				for _, sg := range []string{"", "-"} {
+					n++
+					for _, g := range run(sg + m) {
+						if strings.HasPrefix(g, "(Inf(") || strings.HasPrefix(g, "(NaN(") {
+							bad = fmt.Sprintf("parse(%q) gives %s", sg+m, g)
 						}
 					}
 				}
-			})
-			found[w] = what
-			c.check(good && want == what && lenOK, key, ifs, fmt.Sprintf("%q (any case, length %d) -> %s", w, len(w), what),
-				fmt.Sprintf("parse: the special-name matcher accepts %q (upper/lower pairs ok=%v, under the right length test=%v) and returns %s; the documented names are NaN, Inf, Infinity", w, good, lenOK, what), "C05")
-			return true
-		})
-		for _, w := range []string{"inf", "nan", "infinity"} {
-			if found[w] == "" {
-				c.bad("names.parse.missing:"+w, fd, "parse no longer recognises the special name "+w, "C05")
 			}
 		}
-		c.check(len(found) == 3, "names.parse.count", fd, "exactly the three documented special names", fmt.Sprintf("parse recognises %d special names, want exactly NaN, Inf, Infinity", len(found)), "C05")
+		c.check(bad == "", "names.parse.nearmiss", fd, fmt.Sprintf("%d near misses reach the number parser (no special value)", n), "parse: a string that is not one of the documented special names is accepted as one: "+bad, "C05")
+		// empty input and a lone sign are syntax errors
+		for _, e := range []string{"", "+", "-"} {
+			got := run(e)
+			okk := len(got) == 1 && strings.HasSuffix(got[0], "err:*parseSyntaxError)")
+			c.check(okk, fmt.Sprintf("names.parse.empty:%q", e), fd, "syntax error", fmt.Sprintf("parse(%q) must be a syntax error, got %v", e, got), "C05")
+		}
 	}
 	// Scan: rune comparisons in source order
 	if fd := c.fn("Decimal.Scan"); fd != nil {
@@ -185,49 +152,29 @@ func ruleTextNames(c *Ctx) {
 		if lit == nil {
 			c.undecided("scan.token", fd, "token predicate not found", "C05")
 		} else {
-			admit := map[int64]bool{}
-			rng := false
-			ast.Inspect(lit.Body, func(n ast.Node) bool {
-				cl, ok := n.(*ast.CaseClause)
-				if !ok || len(cl.Body) != 1 {
-					return true
+			// constant propagation of every rune value 0..0x2ff through the predicate
+			var po types.Object
+			if lit.Type.Params != nil && len(lit.Type.Params.List) == 1 && len(lit.Type.Params.List[0].Names) == 1 {
+				po = p.Info.Defs[lit.Type.Params.List[0].Names[0]]
+			}
+			bad := ""
+			for r := int64(0); r < 0x300 && po != nil; r++ {
+				in := newInterp(p)
+				st := newState()
+				st.vars[po] = avInt{r}
+				in.curFn = append(in.curFn, fd)
+				flows := in.execBlock(lit.Body.List, st)
+				want := (r >= '0' && r <= '9') || r == '.' || r == 'E' || r == 'e' || r == '-' || r == '_' || r == '+'
+				for _, f := range flows {
+					if f.kind != flowReturn || f.ret == nil || f.ret.avKey() != fmt.Sprint(want) {
+						bad = fmt.Sprintf("rune %q: predicate gives %v, want %v", rune(r), f.ret, want)
+					}
 				}
-				ret, ok := cl.Body[0].(*ast.ReturnStmt)
-				if !ok || len(ret.Results) != 1 || p.exprStr(ret.Results[0]) != "true" {
-					return true
-				}
-				for _, e := range cl.List {
-					ast.Inspect(e, func(m ast.Node) bool {
-						be, ok := m.(*ast.BinaryExpr)
-						if !ok {
-							return true
-						}
-						if v, ok := p.constInt64(be.Y); ok {
-							switch be.Op {
-							case token.EQL:
-								admit[v] = true
-							case token.GEQ:
-								if v == '0' {
-									rng = true
-								}
-							case token.LEQ:
-								if v != '9' {
-									rng = false
-								}
-							}
-						}
-						return true
-					})
-				}
-				return true
-			})
-			okAlpha := rng && len(admit) == 6
-			for _, ch := range []int64{'.', 'E', 'e', '-', '_', '+'} {
-				if !admit[ch] {
-					okAlpha = false
+				if len(flows) == 0 {
+					bad = "predicate not understood"
 				}
 			}
-			c.check(okAlpha, "scan.token", lit, "token alphabet = digits . E e - _ +", fmt.Sprintf("Scan's token predicate must admit exactly the lexer's alphabet (digits and . E e - _ +); found digits=%v others=%v", rng, admit), "C05")
+			c.check(bad == "" && po != nil, "scan.token", lit, "token alphabet = digits . E e - _ + (all runes below 0x300 evaluated)", "Scan's token predicate must admit exactly the lexer's alphabet (digits and . E e - _ +): "+bad, "C05")
 		}
 		// verbs
 		if cl := firstSwitchClause(p, fd, "verb"); cl != nil {
